@@ -84,3 +84,17 @@ Proof. split; apply C10_wf_init || (split; constructor); discriminate. Qed.
 Theorem C10_lookup_forms_agree_wf : forall r k, wf r -> contains r k = true ->
   exists v, getitem_name r k = Some v /\ getattr r k = RTok v /\ forall d, get r k d = v.
 Proof. exact lookup_forms_agree_wf. Qed.
+
+Example C10_list_ops_keep_names_instance :
+  let r := pr_init (RList [TStr [97%N]; TStr [98%N]]) (Some [107%N]) false false in
+  list_item_op (ODelSlice (Slice None None (Some (-1)))) = true /\
+  av_map (view (fst (apply_op r (ODelSlice (Slice None None (Some (-1))))))) = [([107%N], [VStr [97%N]])] /\
+  av_list (view (fst (apply_op r (ODelSlice (Slice None None (Some (-1))))))) = [].
+Proof. vm_compute. repeat split. Qed.
+
+Example C10_lookup_forms_agree_wf_instance :
+  let r := pr_iadd (pr_init (RList [TStr [97%N]]) (Some [107%N]) false false) (pr_init (RList [TStr [98%N]]) (Some [107%N]) false false) in
+  contains r [107%N] = true /\
+  getitem_name r [107%N] = Some (TPR (pr_of_list [TStr [97%N]; TStr [98%N]])) /\
+  get r [107%N] TNone = TPR (pr_of_list [TStr [97%N]; TStr [98%N]]).
+Proof. vm_compute. repeat split. Qed.
